@@ -12,8 +12,8 @@ RULE = ("every dask-capable model class x chunk layout (single chunk, along samp
         "distinct by (class, layout, scheduler, flags)")
 PARTIAL = ["dask's optimiser, thread interleavings, float summation order and stray .values/bool() inside library calls are runtime behaviour the model "
            "cannot exhibit: covered by the scheduler-call count and the result comparison only",
-           "POP and OPA call numpy inv/eig on lazy arrays (force points inside the algorithm, independent of the flags): recorded findings"]
-REFUTED = ["C12_no_force_when_lazy is stated per class; for POP and OPA the faithful force-point list is non-empty (known findings)"]
+           "POP and OPA defer their numpy linear algebra as one task since the repairs 376b618 / 37144b5"]
+REFUTED = ["C12_allowed_numpy_kernel_refuted: the force-point table before the repairs (numpy-only routines through apply_ufunc(dask='allowed'))"]
 TRUSTED = ["translator T7lazy (where dask computations are triggered and which flag guards them)", "dask.config scheduler hook counts every graph execution"]
 ASSUMES = ["real data (complex data with dask is documented as unsupported)"]
 
@@ -127,7 +127,9 @@ def run(ctx):
                                     ctx.violation("C12:%s:results-not-lazy" % name, "%s(compute=False).fit left no dask-backed result" % name, replay)
                             # the input data is never replaced by an in-memory copy
                             for key in ("input_data", "input_data1", "input_data2"):
-                                if key in m.data and not is_lazy(m.data[key]) and name not in ("OPA",):
+                                # OPA stores the retained PC series (n x n_pca_modes, results of its inner EOF) under this name,
+                                # not the user's data: with compute=True they are computed like any other result
+                                if key in m.data and not is_lazy(m.data[key]) and not (name == "OPA" and compute):
                                     ctx.violation("C12:%s:input-loaded" % name, "%s: data[%r] is an in-memory array after fit on dask input (%s)" % (name, key, tag), replay)
                             # later compute() yields the eager results
                             try:
@@ -143,7 +145,7 @@ def run(ctx):
                                 with dask.config.set(scheduler=getter):
                                     m.compute()
                                 for key in ("input_data", "input_data1", "input_data2"):
-                                    if key in m.data and not is_lazy(m.data[key]) and name not in ("OPA",):
+                                    if key in m.data and not is_lazy(m.data[key]) and not (name == "OPA" and compute):
                                         ctx.violation("C12:%s:input-loaded-by-second-compute" % name, "%s: data[%r] is an in-memory array after a second compute() (%s)" % (name, key, tag), replay)
                             except Exception as e:
                                 ctx.violation("C12:%s:second-compute-error:%s" % (name, C.errkind(e)), "%s: a second compute() raised %r (%s)" % (name, e, tag), replay)
